@@ -16,7 +16,23 @@ NOT_APPLICABLE = {
 
 R = "MiniMcmcVerif.Run."
 
+G = "MiniMcmcVerif.Gibbs."
+
 PROPS = {
+    "C05": {
+        "obligations": [G + n for n in ["sweep_inv", "gibbs_call_indices", "gibbs_call_log", "gibbs_result_length",
+                                        "substep_changes_only_i", "substep_writes_answer", "gibbs_result"]],
+        "level_text": "Theorems (induction over the sweep index; any stateful conditional, state type, dimension): the call log of one Gibbs step has "
+                      "length d, its j-th entry is (j, new[0..j] ++ old[j..]) — every coordinate once, in order, each call seeing all earlier results — "
+                      "sub-step i writes coordinate i only, the dimension is preserved. Tied to gibbs.rs by driving the real step()/run() with a recording, "
+                      "scripted Conditional and comparing call log, final state and call count exactly with the model.",
+        "level_note": "Trusted: the recording Conditional observes exactly the arguments the library passes. The consequence 'the joint distribution is left invariant' is the standard "
+                      "composition of full-conditional updates; only its structural premise (freshest state, one coordinate at a time) is machine-checked against the code.",
+        "rule": "recording Conditional returning scripted values under GibbsMarkovChain::step (1-4 consecutive steps) and GibbsSampler::run (1-8 chains, with burn-in); "
+                "state types i64/f64/usize/f32, dimension 1-64 (a quarter of the cases d<=3); distinct by (type, d, nsteps, entry point, n_chains)",
+        "trusted": ["the recording Conditional sees exactly what the library passes to Conditional::sample"],
+        "assumptions": [],
+    },
     "C09": {
         "obligations": [R + n for n in [
             "runChain_spec", "runChain_length", "runChain_last", "run_continuation", "run_second_call",
